@@ -96,4 +96,16 @@ def toSvgList (V : Aff) : Aff → List CP → List SV
   | acc, p :: ps => toSvg V acc p ++ toSvgList V acc ps
 end
 
+/-- `svg._apply_paint` (svg.py:370), the other direction (nanoemoji Paint → OT-SVG fill): transform paints
+accumulate (`transform @= paint.gettransform()`), the gradient's points are first mapped by `upem_to_vbox` (`U`),
+then the accumulated transform — conjugated into viewBox space, `compose_ltr((U⁻¹, T, U))` — is pre-applied to
+the mapped geometry by `_apply_gradient_paint` (linear gradients need no leftover `gradientTransform`). -/
+def applyPaintFill (U : Aff) : Aff → CP → Option SFill
+  | _, .solid c a => some (.solid c a)
+  | T, .lin g l =>
+    let gU := g.applyTransform U
+    some (.lin (if T = Aff.id then gU else gU.applyTransform (Aff.composeLtr [U.inverseEps eps, T, U])) l)
+  | T, .transform m c => applyPaintFill U (T.mul m) c
+  | _, _ => none
+
 end NanoVerif
